@@ -200,6 +200,17 @@ func c15Prop(c *Ctx) {
 			}
 		}
 	}
+	// a comment, a line comment, a line break, a blank line in EVERY gap between two tokens of the
+	// hand corpus (link() needs a decoration point it can reach from every gap without crossing a token)
+	for si, src := range append(append([]string{}, sinkSources...), c08Sources...) {
+		every := 1
+		if c.Tier != "thorough" && len(src) > 1500 {
+			every = 3
+		}
+		for _, v := range gapSweep(src, every, si) {
+			run(v, "gap-sweep")
+		}
+	}
 	c.Res.Samples = append(c.Res.Samples, c15Input{Src: c15Fixed[9], Kind: "fixed"}, c15Input{Src: clip(c15Corrupt(c, srcs[1], "flip"), 200), Kind: "flip"})
 }
 
